@@ -144,6 +144,54 @@ pub(crate) fn c12_run_schedule() {
 #[cfg(not(kani))]
 pub(crate) fn c12_run_schedule() {}
 
+/// V.cfg: a machine created with a program and a configuration carries every configured input
+/// (applied AFTER the load, whose master reset would otherwise wipe the input registers): input
+/// registers FC-FF, the board's digital input port, jumpers, and the (clamped) voltages.
+#[cfg_attr(kani, kani::proof)]
+#[cfg_attr(kani, kani::unwind(6))]
+pub(crate) fn c12_configuration_applied() {
+    let config = MachineConfig {
+        digital_input1: vany(),
+        temp: vany(),
+        jumper1: vany(),
+        jumper2: vany(),
+        analog_input1: vany(),
+        analog_input2: vany(),
+        universal_input_output1: vany(),
+        universal_input_output2: vany(),
+        universal_input_output3: vany(),
+        input_fc: vany(),
+        input_fd: vany(),
+        input_fe: vany(),
+        input_ff: vany(),
+    };
+    vcover!(config.input_ff == 0x5A && config.jumper2, "pre.some-config");
+    let program = crate::compiler::ByteCode { lines: vec![], stacksize: crate::parser::Stacksize::_16, programsize: crate::parser::Programsize::Auto };
+    let m = crate::machine::Machine::new_with_program(config.clone(), program);
+    let clamp = |v: f32| -> f32 {
+        if v != v || v < 0.0 {
+            0.0
+        } else if v > 5.0 {
+            5.0
+        } else {
+            v
+        }
+    };
+    let b = m.bus();
+    vassert!(b.read(0xFC) == config.input_fc && b.read(0xFD) == config.input_fd && b.read(0xFE) == config.input_fe && b.read(0xFF) == config.input_ff,
+        "C12.V.cfg.input-registers-as-configured");
+    vassert!(*b.board().digital_input1() == config.digital_input1, "C12.V.cfg.digital-input-port-as-configured");
+    vassert!(*b.board().temp() == clamp(config.temp) && b.board().analog_inputs()[0] == clamp(config.analog_input1)
+        && b.board().analog_inputs()[1] == clamp(config.analog_input2), "C12.V.cfg.voltages-as-configured-clamped");
+    let dasr = b.board().dasr().bits();
+    vassert!((dasr & 0x40 != 0) == config.jumper1 && (dasr & 0x80 != 0) == config.jumper2, "C12.V.cfg.jumpers-as-configured");
+    // the UIO pins are inputs after a load (directions reset), so the configured levels are visible
+    vassert!((dasr & 1 != 0) == config.universal_input_output1 && (dasr & 2 != 0) == config.universal_input_output2
+        && (dasr & 4 != 0) == config.universal_input_output3, "C12.V.cfg.uio-levels-as-configured");
+    vassert!(m.state() == State::Running, "C12.V.cfg.machine-running");
+    std::mem::forget(m);
+}
+
 #[cfg_attr(kani, kani::proof)]
 pub(crate) fn c12_canary() {
     let exp = RunExpectations { state: None, output_fe: Some(vany()), output_ff: None };
@@ -156,4 +204,4 @@ pub(crate) fn c12_canary() {
     std::mem::forget(config);
 }
 
-crate::replay_table!(verif_replay_c12; c12_verify, c12_run_schedule, c12_canary,);
+crate::replay_table!(verif_replay_c12; c12_verify, c12_run_schedule, c12_configuration_applied, c12_canary,);
